@@ -74,7 +74,9 @@ def case_get_closest(draw):
     return {"kind": kind, "grid": g, "values": vals, "shape": draw(st.sampled_from(["1d", "1d", "2d", "3d"])),
             "layout": draw(st.sampled_from(["C", "C", "F", "T", "strided", "reversed"])),
             # the grid itself need not be float64: when its elements are whole numbers it may be an integer array
-            "grid_dtype": draw(st.sampled_from(["float64", "float64", "int64", "int32", "uint16", "float32"]))}
+            "grid_dtype": draw(st.sampled_from(["float64", "float64", "int64", "int32", "uint16", "float32"])),
+            # the grid handed over as a strided view of a larger table, used twice, the table rescaled in place in between
+            "grid_view_reused": draw(st.integers(0, 5)) == 0}
 
 
 def _oracle_rows(sub, ctx, case, grid, values, out):
@@ -132,6 +134,14 @@ def check_get_closest(ctx: Ctx, case):
         values = np.concatenate((values, values[:pad]))
         values = values.reshape((2, -1) if shp == "2d" else (2, 2, -1))
     values = relayout(values, case.get("layout", "C"))
+    if case.get("grid_view_reused") and gd == "float64" and np.all(np.isfinite(grid * 2.0)):
+        table = np.zeros((len(grid), 2))
+        table[:, 0] = grid / 2.0
+        view = table[:, 0]                      # a non-contiguous 1-d view
+        with guard(ctx, "C17/exception", sub, case):
+            get_closest(view, values)            # first use (another grid content: half the values)
+        table *= 2.0                             # edited in place: the same view object now holds the case's grid
+        grid = view
     g0, v0 = grid.copy(), values.copy()
     with guard(ctx, "C17/exception", sub, case):
         out = get_closest(grid, values)
@@ -141,7 +151,8 @@ def check_get_closest(ctx: Ctx, case):
     out, values, v0 = out.reshape(-1), values.reshape(-1), v0.reshape(-1)
     special = any(v < grid[0] or v > grid[-1] or v == grid[0] or v == grid[-1] for v in values) or any(
         (v == (grid[i] + grid[i + 1]) / 2) for v in values for i in range(len(grid) - 1) if len(grid) < 40)
-    ctx.count(sub, case, bool(special), [case.get("kind", "?"), f"layout={case.get('layout', 'C')}-{shp}", f"grid-{gd}"])
+    ctx.count(sub, case, bool(special), [case.get("kind", "?"), f"layout={case.get('layout', 'C')}-{shp}", f"grid-{gd}"] +
+              (["grid-view-reused"] if case.get("grid_view_reused") and not grid.flags.c_contiguous else []))
     if out.shape != values.shape:
         ctx.fail("C17/shape", f"shape {out.shape} != {values.shape}", sub, case)
         return
